@@ -251,6 +251,12 @@ class FunGen:
     def g_op(self, ty, ctx, b, eff):
         op = self.r.choice(["+", "-", "*", "+", "-", "*", "/", "%"])
         a = self.gen("i64", ctx, b // 2, False)
+        vs = self.vars_of(ctx, "i64")
+        if op in "/%" and vs and self.r.random() < 0.4:
+            # a variable as divisor (half of the time the first one of the context: backends keep it in a fixed register
+            # that division instructions also use), guarded against zero so that the source semantics stays defined
+            v = (vs[0] if self.r.random() < 0.5 else self.r.choice(vs))[3]
+            return T("if %s == 0 { 0 } else { %s %s %s }" % (v, a.at(1), op, v), 3, a.pure)
         if op in "/%":
             d = T(str(self.r.choice([1, 2, 3, 7, 10, 255, 2147483648, 9223372036854775807])), 1)
             if self.r.random() < 0.3:
